@@ -75,10 +75,20 @@ static lp_upolynomial_t* upoly_times(lp_upolynomial_t* acc, lp_upolynomial_t* f)
   return r;
 }
 
+static int gen_root_poly_dense = 0;       /* force the dense small-coefficient family */
 /* non-constant integer polynomial of degree <= maxdeg with a structured root pattern */
 static lp_upolynomial_t* gen_root_poly(unsigned maxdeg) {
   unsigned k = rnd(100);
   lp_upolynomial_t* p;
+  if (k >= 88 || gen_root_poly_dense) {          /* dense, small coefficients, degree 5..maxdeg: long remainder sequences in which dividing and non-dividing
+                             elimination steps alternate */
+    unsigned d = 5 + rnd(maxdeg > 5 ? maxdeg - 4 : 1); if (d > maxdeg) d = maxdeg;
+    long c[12] = { 0 };
+    for (unsigned i = 0; i <= d; ++i) c[i] = rnd_in(-3, 3);
+    if (c[d] == 0) c[d] = chance(50) ? 1 : -1;
+    if (c[0] == 0) c[0] = 1;
+    return lp_upolynomial_construct_from_long(lp_Z, d, c);
+  }
   if (k < 12) {           /* random dense / sparse */
     do { p = hp_random_upoly(0, 1 + rnd(maxdeg)); if (lp_upolynomial_degree(p) == 0) { lp_upolynomial_delete(p); p = 0; } } while (!p);
     return p;
